@@ -413,6 +413,19 @@ pub fn scenarios(tier: Tier, seed: u64) -> Vec<Scenario> {
             });
         }
     }
+    // the encoder has separate code paths for 1, 2 and 3-8 channels
+    for (i, (front, channels)) in fronts.iter().zip([3u8, 8, 5, 4]).enumerate() {
+        v.push(Scenario::Encode {
+            front: *front,
+            seek: if i % 2 == 0 { Seek::Frames(1) } else { Seek::None },
+            declare: i % 2 == 1,
+            channels,
+            bps: if i == 1 { 24 } else { 16 },
+            frames: 66 + (seed % 5) as u32 + i as u32,
+            bs: 32,
+            padding: if i % 2 == 0 { Some(40) } else { None },
+        });
+    }
     v.push(Scenario::StreamWrite { nframes: 3 });
     let spec = |n: u64| -> VSpec {
         crate::engine::sample_strategy(&metagen::vspec_strategy(), seed.wrapping_add(n), 1).pop().unwrap_or(VSpec {
